@@ -36,9 +36,10 @@ RULE = ('LLE: 2–5 chemicals out of a 9-chemical package, always water plus ≥
         'choice of top chemical (present, absent, none), feed totals of ordinary size (10-100 kmol/hr) and tiny '
         '(1e-6..1e-4 kmol/hr, 30 % of the cases; scale replays up to 1e6 / down to 1e-6), histories of 0–4 earlier calls at the same / nearby (±5e-4 K) / '
         'lower / higher temperature, with composition changes (large, within tolerance, other chemical set), '
-        'scalings 1e-3..1e3, update=False calls and cache resets between calls; SLE: solutes with Tm and Hfus (tetradecanol, naphthalene, '
+        'scalings 1e-3..1e3, update=False calls, cache resets and changes of the set of phases (ms.phases=…, touching '
+        'ms.vle/.sle/.lle) between calls; SLE: solutes with Tm and Hfus (tetradecanol, naphthalene, '
         'phenol, benzoic acid, glucose) with 0–3 solvents, T 250–450 K, given and computed solubilities, Dortmund '
-        'and ideal activity coefficients, 1–4 calls per stream.  non-trivial = an LLE history whose last call returned '
+        'and ideal activity coefficients, 1–4 calls per stream with phase-set changes (ms.phases=…, ms.vle/.lle) between them.  non-trivial = an LLE history whose last call returned '
         'two non-empty phases after ≥1 earlier call, or an SLE call that left the solute in both phases; '
         'distinct = distinct op sequences')
 ASSUMPTIONS = [
@@ -184,10 +185,42 @@ def kvs(tokens):
     return dict(t.split('=', 1) for t in tokens if '=' in t)
 
 
-def new_lle_stream(flows, method, tolT, tolZ):
+KINDS = ('vle', 'lle', 'sle')
+
+
+def access(s, kind, emit=None):
+    """`s.vle` / `s.lle` / `s.sle` on a multi-phase stream, observed: the accessor may enlarge the set of phases
+    (then the caches must be new ones) and hands out a solver, which must be bound to the stream's current
+    material indexer (`solver.imol is s.imol`)"""
+    old_ph = tuple(s.phases)
+    cache = getattr(s, f'_{kind}_cache')
+    was = bool(cache.value)
+    solver = getattr(s, kind)
+    if emit is not None:
+        changed = tuple(s.phases) != old_ph
+        fresh = getattr(s, f'_{kind}_cache') is not cache
+        if changed: emit('phases changed=1', 'caches=' + ('fresh' if fresh else 'kept'))
+        emit(f'retrieve kind={kind}',
+             f'bound={int(solver.imol is s.imol)} loaded={"old" if (was and not fresh) else "new"}')
+    return solver
+
+
+def set_phases(s, letters, emit=None):
+    """`s.phases = …` observed: did the set change, and were the equilibrium caches replaced"""
+    old_ph = tuple(s.phases)
+    caches = [getattr(s, f'_{k}_cache') for k in KINDS]
+    s.phases = tuple(letters)
+    if emit is not None:
+        changed = tuple(s.phases) != old_ph
+        fresh = all(getattr(s, f'_{k}_cache') is not c for k, c in zip(KINDS, caches))
+        emit(f'phases changed={int(changed)}', 'caches=' + ('fresh' if fresh else 'kept'))
+
+
+def new_lle_stream(flows, method, tolT, tolZ, emit=None):
     s = tmo.Stream(None, thermo=LTH)
     for i, v in flows.items(): s.imol.data[i] = v
-    lle = s.lle            # converts the stream to liquid-LIQUID phases
+    s.phases = ('L', 'l')  # what Stream.lle does: the stream becomes a liquid-LIQUID MultiStream (unloaded caches)
+    lle = access(s, 'lle', emit)
     lle.method = method
     if tolT is not None: lle.temperature_cache_tolerance = tolT
     if tolZ is not None: lle.composition_cache_tolerance = tolZ
@@ -211,7 +244,7 @@ def rows(s, a='l', b='L'):
     return f(s.imol[a]), f(s.imol[b])
 
 
-def apply_lle_op(s, t, record=False, force_nocache=False):
+def apply_lle_op(s, t, record=False, force_nocache=False, emit=None):
     """run one history op on a real stream; returns the stream (reset ops may rebuild nothing)"""
     op = t[1]
     kv = kvs(t[2:])
@@ -223,10 +256,18 @@ def apply_lle_op(s, t, record=False, force_nocache=False):
         set_flows(s, parse_flows(kv['flows']))
     elif op == 'scale':
         s.scale(float(kv['k']))
-    elif op == 'resetcache':
+    elif op in ('resetcache', 'phases', 'touch'):
+        # the solver settings of the case travel with the stream (a new solver object starts from the defaults)
         m, tT, tZ = s.lle.method, s.lle.temperature_cache_tolerance, s.lle.composition_cache_tolerance
-        s.reset_cache()
-        s.lle.method = m; s.lle.temperature_cache_tolerance = tT; s.lle.composition_cache_tolerance = tZ
+        if op == 'resetcache':
+            s.reset_cache()
+            if emit is not None: emit('lle-reset', 'ok')
+        elif op == 'phases':
+            set_phases(s, kv['set'], emit)
+        else:
+            access(s, kv['kind'], emit)
+        lle = access(s, 'lle', emit)
+        lle.method = m; lle.temperature_cache_tolerance = tT; lle.composition_cache_tolerance = tZ
     else:
         raise ValueError('unknown lle op ' + ' '.join(t))
     return s
@@ -312,8 +353,10 @@ def run_lle(case, model_in, outs, failures, tags):
     tolT = None if kv0.get('tolT', '-') == '-' else float(kv0['tolT'])
     tolZ = None if kv0.get('tolZ', '-') == '-' else float(kv0['tolZ'])
     flows0 = parse_flows(kv0['flows'])
-    s = new_lle_stream(flows0, method, tolT, tolZ)
-    model_in.append('lle-reset'); outs.append('ok')
+    def emit(line, ans):
+        model_in.append(line); outs.append(ans)
+    emit('lle-reset', 'ok')
+    s = new_lle_stream(flows0, method, tolT, tolZ, emit)
     tags.append('lle:' + MTAG[method])
     eff_tolT = DEF_TOLT if tolT is None else tolT
     eff_tolZ = DEF_TOLZ if tolZ is None else tolZ
@@ -323,9 +366,13 @@ def run_lle(case, model_in, outs, failures, tags):
     for k in range(1, len(ops)):
         t = ops[k]
         if t[1] != 'call':
-            apply_lle_op(s, t)
-            if t[1] == 'resetcache':
-                model_in.append('lle-reset'); outs.append('ok'); prev = None
+            n0 = len(outs)
+            apply_lle_op(s, t, emit=emit)
+            if t[1] == 'resetcache' or 'caches=fresh' in outs[n0:]:
+                prev = None         # a new solver object: nothing is remembered
+            if t[1] in ('phases', 'touch'):
+                tags.append(f'phase-set:{t[1]}:' + ('changed' if any(o.startswith('caches=') and l.endswith('=1')
+                                                                    for l, o in zip(model_in[n0:], outs[n0:])) else 'same'))
             continue
         kv = kvs(t[2:])
         T = float(kv['T']); top = None if kv['top'] == '-' else kv['top']; uc = kv['uc'] == '1'
@@ -333,7 +380,7 @@ def run_lle(case, model_in, outs, failures, tags):
         feed = total_flows(s)
         F_feed = feed.sum()
         if 0 < F_feed < 1e-3: tags.append('feed:tiny(<1e-3 kmol/hr)')
-        lle = s.lle
+        lle = access(s, 'lle', emit)
         phi_before = lle._phi          # remembered phase fraction: the solver takes the remembered K as its
         guess_is_remembered = lle._K is not None and phi_before is not None and 0 < phi_before < 1   # guess only then
         _rec_reset()
@@ -582,7 +629,9 @@ def run_sle(case, model_in, outs, failures, tags):
     th = int(kv0['thermo'])
     m = new_sle_stream(th, parse_flows(kv0['liq']), parse_flows(kv0['sol']))
     chemicals = STH[th].chemicals
-    model_in.append('sle-reset'); outs.append('ok')
+    def emit(line, ans):
+        model_in.append(line); outs.append(ans)
+    emit('sle-reset', 'ok')
     tags.append('sle:' + ('dortmund' if th == 0 else 'ideal'))
     partial = False
     prev_kind = None
@@ -595,6 +644,14 @@ def run_sle(case, model_in, outs, failures, tags):
         if t[1] == 'resetcache':
             m.reset_cache(); model_in.append('sle-reset'); outs.append('ok'); prev_kind = None
             continue
+        if t[1] in ('phases', 'touch'):
+            n0 = len(outs)
+            if t[1] == 'phases': set_phases(m, kv['set'], emit)
+            else: access(m, kv['kind'], emit)
+            ch = any(o.startswith('caches=') and l.endswith('=1') for l, o in zip(model_in[n0:], outs[n0:]))
+            if 'caches=fresh' in outs[n0:]: prev_kind = None
+            tags.append(f'phase-set:{t[1]}:' + ('changed' if ch else 'same'))
+            continue
         solute = kv['solute']; T = float(kv['T'])
         given = None if kv['given'] == '-' else float(kv['given'])
         si = chemicals.index(solute)
@@ -605,7 +662,7 @@ def run_sle(case, model_in, outs, failures, tags):
         idx = list(chemicals.get_lle_indices(nzs))
         kind = 'given' if given is not None else 'computed'
         tags.append('sle-call:' + kind)
-        sle = m.sle
+        sle = access(m, 'sle', emit)
         line = (f'sle-call s={si} T={fbits(T)} Tm={fbits(Tm)} given={"-" if given is None else fbits(given)} '
                 f'x=%s liq={fl(l0)} sol={fl(s0)} nz={nl(nzs)} idx={nl(idx)}')
         call = lambda: sle(solute, T=T, solubility=given)
@@ -827,6 +884,12 @@ def gen_lle(rng, method_i):
                 i = rng.choice(sorted(flows)); flows[i] = round(flows[i] * rng.choice([0.3, 0.5, 2, 3]), 4)
                 ops.append(f'lle set flows={ftok(flows)}')
             if rng.random() < 0.25: top = rng.choice(tops)
+            if rng.random() < 0.22:
+                # the set of phases of the stream changes between two calls: explicitly, or because another kind of
+                # solver is asked for (ms.vle adds 'g', ms.sle adds 's'); 'Ll' re-assigns the minimal set (no change, or
+                # a shrink after an earlier enlargement)
+                ops.append(rng.choice(['lle phases set=gLl', 'lle phases set=Lls', 'lle phases set=Ll', 'lle phases set=gLls',
+                                       'lle touch kind=vle', 'lle touch kind=sle', 'lle touch kind=lle']))
         uc = 1 if rng.random() < 0.88 else 0
         k = rng.choice([1e-3, 1e-2, 0.1, 10, 100, 1e3] + ([1e5, 1e6] if tiny else [1e-5, 1e-6])) \
             if (last or rng.random() < 0.3) else 1
@@ -864,6 +927,9 @@ def gen_sle(rng):
                 ops.append(f'sle set liq={ix(rng.choice(solv))}:0.0')
             elif r < 0.42:
                 ops.append('sle resetcache')
+            if rng.random() < 0.25:
+                ops.append(rng.choice(['sle phases set=gls', 'sle phases set=sLl', 'sle phases set=ls', 'sle phases set=gLls',
+                                       'sle touch kind=vle', 'sle touch kind=lle', 'sle touch kind=sle']))
             if rng.random() < 0.2:
                 others = [SNAMES[i] for i in list(liq) + list(sol) if SNAMES[i] in SOLUTES]
                 if others: solute = rng.choice(others)
@@ -914,6 +980,16 @@ def corpus():
         # compute_phase_fraction_2N divide by zero (fixes_proposed/C15-4.md)
         Case(['lle new method=2 tolT=- tolZ=- flows=0:6.596,2:28.4414', 'lle call T=310.24 top=- uc=1 k=1',
               'lle set flows=0:6.596,2:28.4411724688', 'lle call T=310.24 top=- uc=1 k=1'], {'kind': 'lle'}),
+        # the set of phases changes between two calls of the same kind of solver (the solver handed out afterwards
+        # must act on the stream's new material data)
+        Case(['lle new method=2 tolT=- tolZ=- flows=0:12.0,3:6.0,5:2.0', 'lle call T=295.0 top=Hexane uc=1 k=1',
+              'lle phases set=gLl', 'lle call T=345.0 top=Hexane uc=1 k=1', 'lle touch kind=sle',
+              'lle call T=300.0 top=Hexane uc=1 k=1'], {'kind': 'lle'}),
+        Case(['sle new thermo=0 liq=5:12.0 sol=-', 'sle call solute=Naphthalene T=330.0 given=-', 'sle phases set=gls',
+              'sle call solute=Naphthalene T=370.0 given=-'], {'kind': 'sle'}),
+        Case(['sle new thermo=0 liq=0:8.0,6:3.0 sol=-', 'sle call solute=Phenol T=300.0 given=0.2', 'sle touch kind=vle',
+              'sle call solute=Phenol T=280.0 given=0.01', 'sle touch kind=lle', 'sle call solute=Phenol T=290.0 given=-'],
+             {'kind': 'sle'}),
         # SLE: docstring cases
         Case(['sle new thermo=0 liq=2:10.0,4:30.0 sol=-', 'sle call solute=Tetradecanol T=300.0 given=-',
               'sle call solute=Tetradecanol T=300.0 given=0.5'], {'kind': 'sle'}),
